@@ -50,6 +50,7 @@ type Pipe struct {
 	mu        sync.Mutex
 	left      []byte
 	writes    [][]byte
+	wtimes    []time.Time
 	wcount    int
 	failAt    map[int]bool
 	blocked   bool
@@ -149,6 +150,7 @@ func (p *Pipe) Write(b []byte) (int, error) {
 	}
 	p.mu.Lock()
 	p.writes = append(p.writes, append([]byte(nil), b...))
+	p.wtimes = append(p.wtimes, time.Now())
 	p.mu.Unlock()
 	select {
 	case p.wsignal <- struct{}{}:
@@ -169,6 +171,13 @@ func (p *Pipe) Writes() [][]byte {
 	p.mu.Lock()
 	defer p.mu.Unlock()
 	return append([][]byte(nil), p.writes...)
+}
+
+// WriteTimes returns the time of each Write call.
+func (p *Pipe) WriteTimes() []time.Time {
+	p.mu.Lock()
+	defer p.mu.Unlock()
+	return append([]time.Time(nil), p.wtimes...)
 }
 
 // WaitWrites waits until pred holds of the writes.
